@@ -123,3 +123,36 @@ Print Assumptions C01_seal_agreement.
 Print Assumptions C01_blocks_monotone.
 Print Assumptions C01_node_independent_of_order.
 Print Assumptions C01_full_from_refinement.
+
+(* ================= L1 (worker link): C01 for the line-by-line model of abft =================
+   From C10_model_refines_reference (props/C10.v, proofs/LinkRun.v) and the reference-level theorems above:
+   an instance of the MODEL OF THE CODE that is fed any parents-first arrangement D1 of any subset of a
+   valid run D2 accepts every event, emits a prefix of the blocks (frame, Atropos, cheaters) of an
+   instance fed D2, and the same blocks if it was fed all events.  Side conditions: LinkDefs.link_side. *)
+From LV Require Import model.Abft model.AbftRun proofs.LinkVals proofs.LinkDefs proofs.LinkRun proofs.LinkExample.
+
+Theorem C01_agreement_for_the_model : forall cap lam,
+  forall vals D1 D2, link_side vals D2 -> valid_run vals D2 -> incl D1 D2 -> NoDup (ids_of D1) -> parents_first D1 ->
+    codes_ok (fst (abft_run cap lam vals D1)) /\
+    prefix (snd (abft_run cap lam vals D1)) (snd (abft_run cap lam vals D2)) /\
+    (incl D2 D1 -> snd (abft_run cap lam vals D1) = snd (abft_run cap lam vals D2)).
+Proof. exact link_C01. Qed.
+
+Example C01_model_example :
+  link_side ex2_vals ex2_D /\ valid_run ex2_vals ex2_D /\
+  (incl (ex2_map ex_D') ex2_D /\ incl ex2_D (ex2_map ex_D') /\ NoDup (ids_of (ex2_map ex_D')) /\ parents_first (ex2_map ex_D')) /\
+  (incl (ex2_map ex_Dsub) ex2_D /\ NoDup (ids_of (ex2_map ex_Dsub)) /\ parents_first (ex2_map ex_Dsub) /\
+   snd (abft_run 200 (fun _ => 0) ex2_vals (ex2_map ex_Dsub)) = [(1, 1000, [])]).
+Proof. exact (conj ex2_side (conj ex2_valid (conj ex2_reordered ex2_subset))). Qed.
+
+Print Assumptions C01_agreement_for_the_model.
+
+(* the same for validator lists in any order (side conditions: LinkRaw.link_side_raw) *)
+From LV Require Import proofs.LinkRaw.
+Theorem C01_agreement_for_the_model_any_order : forall cap lam,
+  forall vals D1 D2, link_side_raw vals D2 -> valid_run vals D2 -> incl D1 D2 -> NoDup (ids_of D1) -> parents_first D1 ->
+    codes_ok (fst (abft_run cap lam vals D1)) /\
+    prefix (snd (abft_run cap lam vals D1)) (snd (abft_run cap lam vals D2)) /\
+    (incl D2 D1 -> snd (abft_run cap lam vals D1) = snd (abft_run cap lam vals D2)).
+Proof. exact link_C01_raw. Qed.
+Print Assumptions C01_agreement_for_the_model_any_order.
